@@ -1631,48 +1631,169 @@ func (c *Ctx) guardedSubRule(rule string, fns []*ssa.Function, reasons map[strin
 		kb, okB := constInt(b)
 		return okA && okB && ka == kb
 	}
-	var leqX func(b *ssa.BasicBlock, small, big ssa.Value, depth int, extra []condFact) bool
-	leq := func(blk *ssa.BasicBlock, small, big ssa.Value, depth int) bool {
+	// what a value is compared with: a value, or the length of a collection (for which no len() call need exist in
+	// the function looked at)
+	type bigT struct {
+		v     ssa.Value
+		lenOf ssa.Value
+	}
+	sameBig := func(v ssa.Value, big bigT) bool {
+		if big.v != nil {
+			return same(v, big.v)
+		}
+		x, ok := lenArg(stripConv(v))
+		return ok && sameColl(x, big.lenOf)
+	}
+	var leqX func(b *ssa.BasicBlock, small ssa.Value, big bigT, depth int, extra []condFact) bool
+	leqB := func(blk *ssa.BasicBlock, small ssa.Value, big bigT, depth int) bool {
 		return leqX(blk, small, big, depth, nil)
 	}
-	leqX = func(blk *ssa.BasicBlock, small, big ssa.Value, depth int, extra []condFact) bool {
+	leq := func(blk *ssa.BasicBlock, small, big ssa.Value, depth int) bool {
+		return leqX(blk, small, bigT{v: big}, depth, nil)
+	}
+	// calleeImage: what `big`, as seen at the call site `site`, is called inside the callee h
+	calleeImage := func(site *ssa.Call, h *ssa.Function, big bigT) (bigT, bool) {
+		shift := 0
+		if h.Signature.Recv() != nil && len(h.Params) == len(site.Call.Args) && !site.Call.IsInvoke() {
+			shift = 0
+		}
+		for j, a := range site.Call.Args {
+			if j+shift >= len(h.Params) {
+				break
+			}
+			p := h.Params[j+shift]
+			if big.v != nil && same(a, big.v) {
+				return bigT{v: p}, true
+			}
+			if big.lenOf != nil {
+				if x, ok := lenArg(stripConv(a)); ok && sameColl(x, big.lenOf) {
+					return bigT{v: p}, true
+				}
+				if sameColl(a, big.lenOf) {
+					return bigT{lenOf: p}, true
+				}
+			}
+			if big.v != nil {
+				if x, ok := lenArg(stripConv(big.v)); ok && sameColl(a, x) {
+					return bigT{lenOf: p}, true
+				}
+			}
+		}
+		return bigT{}, false
+	}
+	// subSliceOf: x is y, or a suffix/middle cut out of y without re-extending it (x[lo:] — a high bound could reach
+	// into the capacity), possibly handed back by a helper that was given y
+	var subSliceOf func(x, y ssa.Value, depth int) bool
+	subSliceOf = func(x, y ssa.Value, depth int) bool {
+		if depth > 4 {
+			return false
+		}
+		if sameColl(x, y) {
+			return true
+		}
+		switch v := x.(type) {
+		case *ssa.Slice:
+			if v.High == nil && v.Max == nil {
+				if _, isSl := v.X.Type().Underlying().(*types.Slice); isSl {
+					return subSliceOf(v.X, y, depth+1)
+				}
+			}
+		case *ssa.Phi:
+			for _, e := range v.Edges {
+				if !subSliceOf(e, y, depth+1) {
+					return false
+				}
+			}
+			return len(v.Edges) > 0
+		case *ssa.Extract:
+			hc, ok := v.Tuple.(*ssa.Call)
+			if !ok {
+				return false
+			}
+			h := hc.Call.StaticCallee()
+			if h == nil || !load.FuncInRepo(h) || h.Blocks == nil || len(h.Params) != len(hc.Call.Args) {
+				return false
+			}
+			ei := errIndex(h.Signature)
+			for j, a := range hc.Call.Args {
+				if !sameColl(a, y) {
+					continue
+				}
+				all, n := true, 0
+				for _, hb := range h.Blocks {
+					ret, ok := hb.Instrs[len(hb.Instrs)-1].(*ssa.Return)
+					if !ok || v.Index >= len(ret.Results) {
+						continue
+					}
+					if ei >= 0 && !isNilK(ret.Results[ei]) {
+						continue
+					}
+					n++
+					if !subSliceOf(ret.Results[v.Index], h.Params[j], depth+1) {
+						all = false
+					}
+				}
+				if all && n > 0 {
+					return true
+				}
+			}
+		}
+		return false
+	}
+	leqX = func(blk *ssa.BasicBlock, small ssa.Value, big bigT, depth int, extra []condFact) bool {
 		if depth > 3 {
 			return false
 		}
-		if same(small, big) {
+		if sameBig(small, big) {
 			return true
 		}
-		if k, ok := constInt(stripConv(small)); ok && k == 0 {
-			if bt, ok := big.Type().Underlying().(*types.Basic); ok && bt.Info()&types.IsUnsigned != 0 {
+		// the length of a piece cut out of a slice is at most the length of that slice
+		if xs, ok := lenArg(stripConv(small)); ok {
+			if big.lenOf != nil && subSliceOf(xs, big.lenOf, 0) {
 				return true
 			}
-			if _, isLen := lenArg(stripConv(big)); isLen {
+			if big.v != nil {
+				if xb, ok := lenArg(stripConv(big.v)); ok && subSliceOf(xs, xb, 0) {
+					return true
+				}
+			}
+		}
+		if k, ok := constInt(stripConv(small)); ok && k == 0 {
+			if big.lenOf != nil {
+				return true
+			}
+			if bt, ok := big.v.Type().Underlying().(*types.Basic); ok && bt.Info()&types.IsUnsigned != 0 {
+				return true
+			}
+			if _, isLen := lenArg(stripConv(big.v)); isLen {
 				return true
 			}
 		}
 		conds := append(append([]condFact{}, dominatingConds(blk)...), extra...)
 		for _, cf := range conds {
 			if op, other, ok := relFact(cf, func(v ssa.Value) bool { return same(v, small) }); ok && (op == token.LEQ || op == token.LSS || op == token.EQL) {
-				if same(other, big) || leq(blk, other, big, depth+1) {
+				if sameBig(other, big) || leqX(blk, other, big, depth+1, extra) {
 					return true
 				}
 			}
-			if op, other, ok := relFact(cf, func(v ssa.Value) bool { return same(v, big) }); ok && (op == token.GEQ || op == token.GTR || op == token.EQL) {
+			if op, other, ok := relFact(cf, func(v ssa.Value) bool { return sameBig(v, big) }); ok && (op == token.GEQ || op == token.GTR || op == token.EQL) {
 				if same(other, small) || leq(blk, small, other, depth+1) {
 					return true
 				}
 			}
 		}
 		// shifted form: big = L - k, and L ≥ small + k is known
-		if bb, ok := stripConv(big).(*ssa.BinOp); ok && bb.Op == token.SUB {
-			for _, cf := range conds {
-				op, other, ok := relFact(cf, func(v ssa.Value) bool { return same(v, bb.X) })
-				if !ok || !(op == token.GEQ || op == token.GTR || op == token.EQL) {
-					continue
-				}
-				if sum, ok := stripConv(other).(*ssa.BinOp); ok && sum.Op == token.ADD {
-					if (same(sum.X, small) && same(sum.Y, bb.Y)) || (same(sum.Y, small) && same(sum.X, bb.Y)) {
-						return true
+		if big.v != nil {
+			if bb, ok := stripConv(big.v).(*ssa.BinOp); ok && bb.Op == token.SUB {
+				for _, cf := range conds {
+					op, other, ok := relFact(cf, func(v ssa.Value) bool { return same(v, bb.X) })
+					if !ok || !(op == token.GEQ || op == token.GTR || op == token.EQL) {
+						continue
+					}
+					if sum, ok := stripConv(other).(*ssa.BinOp); ok && sum.Op == token.ADD {
+						if (same(sum.X, small) && same(sum.Y, bb.Y)) || (same(sum.Y, small) && same(sum.X, bb.Y)) {
+							return true
+						}
 					}
 				}
 			}
@@ -1682,19 +1803,50 @@ func (c *Ctx) guardedSubRule(rule string, fns []*ssa.Function, reasons map[strin
 		case *ssa.BinOp:
 			switch x.Op {
 			case token.REM, token.QUO, token.AND, token.SHR:
-				if same(x.X, big) {
+				if sameBig(x.X, big) {
 					return true // a % k, a / k, a & m, a >> k ≤ a for non-negative a
 				}
 			case token.SUB:
-				if same(x.X, big) || leq(blk, x.X, big, depth+1) {
+				if sameBig(x.X, big) || leqB(blk, x.X, big, depth+1) {
 					return true // (a - c) ≤ a; the inner difference is an obligation of its own
 				}
 			}
 		case *ssa.Call:
 			if bi, ok := x.Call.Value.(*ssa.Builtin); ok && bi.Name() == "min" {
 				for _, a := range x.Call.Args {
-					if same(a, big) {
+					if sameBig(a, big) {
 						return true
+					}
+				}
+			}
+		case *ssa.Extract:
+			// the result of a helper that succeeded: every successful return of the helper hands out a value it has
+			// bounded by what the caller's `big` is called inside it (a decode-and-validate helper)
+			if hc, ok := x.Tuple.(*ssa.Call); ok {
+				h := hc.Call.StaticCallee()
+				if h != nil && load.FuncInRepo(h) && h.Blocks != nil && errIndex(h.Signature) >= 0 && x.Index < h.Signature.Results().Len() {
+					ei := errIndex(h.Signature)
+					succeeded := false
+					for _, r := range nonDebugRefs(hc) {
+						if ex, ok := r.(*ssa.Extract); ok && ex.Index == ei && errKnownNil(blk, ex) {
+							succeeded = true
+						}
+					}
+					if img, ok := calleeImage(hc, h, big); ok && succeeded {
+						all, n := true, 0
+						for _, hb := range h.Blocks {
+							ret, ok := hb.Instrs[len(hb.Instrs)-1].(*ssa.Return)
+							if !ok || !isNilK(ret.Results[ei]) {
+								continue
+							}
+							n++
+							if !leqB(hb, ret.Results[x.Index], img, depth+1) {
+								all = false
+							}
+						}
+						if all && n > 0 {
+							return true
+						}
 					}
 				}
 			}
@@ -1714,7 +1866,7 @@ func (c *Ctx) guardedSubRule(rule string, fns []*ssa.Function, reasons map[strin
 						edge = condLeaves(iff.Cond, at.Succs[0] == x.Block())
 					}
 				}
-				if !leqX(at, e, big, depth+1, edge) && !leq(blk, e, big, depth+1) {
+				if !leqX(at, e, big, depth+1, edge) && !leqB(blk, e, big, depth+1) {
 					all = false
 				}
 			}
@@ -1725,7 +1877,7 @@ func (c *Ctx) guardedSubRule(rule string, fns []*ssa.Function, reasons map[strin
 				// a counter: the loop test (a dominating condition on the φ) bounds it
 				for _, cf := range conds {
 					if op, other, ok := relFact(cf, func(v ssa.Value) bool { return v == ssa.Value(x) }); ok && (op == token.LEQ || op == token.LSS) {
-						if same(other, big) || leq(blk, other, big, depth+1) {
+						if sameBig(other, big) || leqB(blk, other, big, depth+1) {
 							return true
 						}
 					}
@@ -1733,16 +1885,30 @@ func (c *Ctx) guardedSubRule(rule string, fns []*ssa.Function, reasons map[strin
 			}
 		}
 		// big = small + y
-		if bb, ok := stripConv(big).(*ssa.BinOp); ok && bb.Op == token.ADD && (same(bb.X, small) || same(bb.Y, small)) {
-			return true
+		if big.v != nil {
+			if bb, ok := stripConv(big.v).(*ssa.BinOp); ok && bb.Op == token.ADD && (same(bb.X, small) || same(bb.Y, small)) {
+				return true
+			}
 		}
 		return false
 	}
-	// every caller establishes it: both operands are parameters of an unexported function called only statically
+	// every caller establishes it: the operands are parameters (or the length of a parameter) of an unexported function
+	// called only statically
 	lifted := func(f *ssa.Function, small, big ssa.Value) bool {
 		ps, ok1 := stripConv(small).(*ssa.Parameter)
-		pb, ok2 := stripConv(big).(*ssa.Parameter)
-		if !ok1 || !ok2 || ps.Parent() != f || pb.Parent() != f || f.Object() == nil || f.Object().Exported() {
+		if !ok1 || ps.Parent() != f || f.Object() == nil || f.Object().Exported() {
+			return false
+		}
+		var pb *ssa.Parameter
+		bigIsLen := false
+		if q, ok := stripConv(big).(*ssa.Parameter); ok {
+			pb = q
+		} else if x, ok := lenArg(stripConv(big)); ok {
+			if q, ok := x.(*ssa.Parameter); ok {
+				pb, bigIsLen = q, true
+			}
+		}
+		if pb == nil || pb.Parent() != f {
 			return false
 		}
 		is, ib := -1, -1
@@ -1758,19 +1924,28 @@ func (c *Ctx) guardedSubRule(rule string, fns []*ssa.Function, reasons map[strin
 		if node == nil || len(node.In) == 0 || is < 0 || ib < 0 {
 			return false
 		}
+		sites := 0
 		for _, e := range node.In {
-			if e.Site == nil || e.Site.Common().StaticCallee() != f || c.isTestFunc(e.Caller.Func) {
-				if e.Site != nil && c.isTestFunc(e.Caller.Func) {
-					continue
-				}
+			if e.Site == nil {
+				return false
+			}
+			if c.isTestFunc(e.Caller.Func) {
+				continue
+			}
+			if e.Site.Common().StaticCallee() != f {
 				return false
 			}
 			args := e.Site.Common().Args
-			if !leq(e.Site.Block(), args[is], args[ib], 0) {
+			sites++
+			b := bigT{v: args[ib]}
+			if bigIsLen {
+				b = bigT{lenOf: args[ib]}
+			}
+			if !leqB(e.Site.Block(), args[is], b, 0) {
 				return false
 			}
 		}
-		return true
+		return sites > 0
 	}
 	var shape func(v ssa.Value, d int) string
 	shape = func(v ssa.Value, d int) string {
@@ -1840,6 +2015,24 @@ func (c *Ctx) guardedSubRule(rule string, fns []*ssa.Function, reasons map[strin
 					construct = fmt.Sprintf("%s #%d", construct, per[sh])
 				}
 				okSub := leq(b, sub.Y, sub.X, 0) || lifted(f, sub.Y, sub.X)
+				// a signed difference may also be taken first and looked at afterwards: every use as an index or bound
+				// stands behind "the difference is not negative"
+				if !okSub && !isUnsigned(sub.Type()) {
+					uses := indexUses(sub)
+					all := len(uses) > 0
+					for _, u := range uses {
+						nonNeg := false
+						for _, cf := range dominatingConds(u.At.Block()) {
+							if op, other, ok := relFact(cf, func(v ssa.Value) bool { return v == ssa.Value(sub) }); ok {
+								if k, isK := constInt(stripConv(other)); isK && ((op == token.GEQ && k >= 0) || (op == token.GTR && k >= -1)) {
+									nonNeg = true
+								}
+							}
+						}
+						all = all && nonNeg
+					}
+					okSub = all
+				}
 				key := load.RelPkg(f) + ": " + sh
 				if survey {
 					fmt.Printf("SURVEY T21 %v %s %s [%s]\n", okSub, c.pos(sub.Pos()), construct, key)
